@@ -60,6 +60,7 @@ def run(repo, rep, tier):
     _source_identity(repo, rep)
     _extent(repo, rep)
     _rebuilt(repo, rep)
+    _reopen(repo, rep)
     _retype(repo, rep)
     _handler(repo, rep)
     _functions(repo, rep)
@@ -341,6 +342,55 @@ def _extent(repo, rep):
               "Token-preserving method applied to it)",
               construct="decode-keeps-token", where=L.where(dh),
               detail="; ".join(bad)[:160])
+
+
+def _reopen(repo, rep):
+    """The message is computed when str(exc) is called: the formatter
+    re-opens the template file to quote the source line.  The file is in the
+    template's encoding, not necessarily the locale's -- reading it must not
+    be able to raise (a UnicodeDecodeError out of __str__ leaves the caller
+    without any message)."""
+    m = repo.modules["chameleon.exc"]
+    n = 0
+    for q, f in sorted(repo.funcs.items()):
+        if f.module is not m:
+            continue
+        for c in ast.walk(f.node):
+            if not (isinstance(c, ast.Call) and src(c.func) == "open"):
+                continue
+            n += 1
+            kw = {k.arg: k.value for k in c.keywords}
+            mode = c.args[1] if len(c.args) > 1 else kw.get("mode")
+            binary = isinstance(mode, ast.Constant) and "b" in str(mode.value)
+            lenient = isinstance(kw.get("errors"), ast.Constant) and \
+                kw["errors"].value in ("replace", "ignore",
+                                       "backslashreplace",
+                                       "surrogateescape")
+            # or every use of the file object sits under a handler that
+            # catches the decoding error
+            covered = False
+            a = getattr(c, "_parent", None)
+            while a is not None and a is not f.node:
+                if isinstance(a, ast.Try) and any(
+                        h.type is None or any(
+                            x in src(h.type) for x in (
+                                "UnicodeError", "UnicodeDecodeError",
+                                "ValueError", "Exception"))
+                        for h in a.handlers):
+                    # the reading has to be inside the same try
+                    covered = any(isinstance(x, ast.For) or (
+                        isinstance(x, ast.Call) and src(x.func) in (
+                            "list", "iter_source_marker_lines"))
+                        for b_ in a.body for x in ast.walk(b_))
+                a = getattr(a, "_parent", None)
+            rep.check(binary or lenient or covered, "R12.6", f.qualname,
+                      "the template file re-opened for the source line is "
+                      "read leniently (errors=...), as bytes, or under a "
+                      "handler of the decoding error: computing the message "
+                      "cannot raise", construct="reopen-lenient:" + f.name,
+                      where=L.where(f, c.lineno), detail=src(c))
+    if n < 2:
+        raise AnalysisError("only %d open() call(s) in chameleon.exc" % n)
 
 
 def _rebuilt(repo, rep):
